@@ -23,10 +23,17 @@ import (
 	"time"
 )
 
-const (
-	repoDir = "/repo"
-	scratch = "/tmp/gldap-verif"
-)
+const scratch = "/tmp/gldap-verif"
+
+// repoDir is /repo; VERIF_REPO lets the sensitivity tooling (tools/) point a
+// check at a scratch worktree with a seeded change applied, so that /repo is
+// never left modified. The registered commands do not set it.
+var repoDir = func() string {
+	if d := os.Getenv("VERIF_REPO"); d != "" {
+		return d
+	}
+	return "/repo"
+}()
 
 // verifDir is the directory the orchestrator lives in (bin/verif's parent's
 // parent), so that a snapshot of /verif is self-contained.
@@ -177,8 +184,8 @@ func run(dir string, name string, args ...string) ([]byte, error) {
 
 // prepare builds the worker for the current working tree of /repo.
 func prepare(tag string, race bool) (dir string, worker string) {
-	if verifDir != "/verif" {
-		h := sha256.Sum256([]byte(verifDir))
+	if verifDir != "/verif" || repoDir != "/repo" {
+		h := sha256.Sum256([]byte(verifDir + "|" + repoDir))
 		tag += fmt.Sprintf("-%x", h[:3])
 	}
 	dir = filepath.Join(scratch, tag)
